@@ -331,8 +331,6 @@ Section Frame.
   Qed.
 End Frame.
 
-Definition body_vars (bi : list var) (body : jaxpr) : list var := bi ++ flat_map non_drop body.
-
 (* two inlinings of the SAME body with fresh maps of disjoint range: whatever the first one bound (all of it
    lives in the range of rho1, plus the first equation's outvars) is still bound to the same values after the
    second one *)
